@@ -267,15 +267,36 @@ SpecialPrograms ==
             Home(<<>>, <<Linked("me", <<Scalar("A"), Scalar("B"), Scalar("name")>>)>>), EP,
             Component("Query", "Other", <<>>, <<Linked("me", <<Scalar("B")>>)>>), Entrypoint("Query", "Other") >>, {"two-entrypoints"}) }
 
+\* ---- selection sets whose members all print nothing (client pointers, client fields without selections) ----
+\* (added after seeded/C11-query-text-typename-fallback-for-pointer-only-sets: the merged selection map of such a set is
+\* not empty, yet neither printer prints anything for it; on id-less concrete types nothing is added automatically)
+InvOrder == <<"emptyfield", "ptr", "ptr2">>
+InvDecl(T, k) == CASE k = "emptyfield" -> Field(T, "Nothing", <<>>, <<>>)
+                   [] k = "ptr"        -> Pointer(T, "aPet", "Pet", <<>>)
+                   [] k = "ptr2"       -> Pointer(T, "bPet", "Pet", <<Scalar("Nothing")>>)
+InvSel(k) == CASE k = "emptyfield" -> Scalar("Nothing")
+               [] k = "ptr"        -> Linked("aPet", <<Scalar("nickname")>>)
+               [] k = "ptr2"       -> Linked("bPet", <<Scalar("kind")>>)
+InvKinds(S) == SelectSeq(InvOrder, LAMBDA k : k \in S \/ (k = "emptyfield" /\ "ptr2" \in S))
+InvDecls(T, S) == [i \in 1..Len(InvKinds(S)) |-> InvDecl(T, InvKinds(S)[i])]
+InvSels(S) == LET ks == SelectSeq(InvOrder, LAMBDA k : k \in S) IN [i \in 1..Len(ks) |-> InvSel(ks[i])]
+InvisiblePrograms ==
+  UNION { { Prog(InvDecls("Query", S) \o << Home(<<>>, InvSels(S)), EP >>, {"invisible-root"} \cup {"inv-" \o k : k \in S}),
+            Prog(InvDecls("FeedResult", S)
+                 \o << Component("Mutation", "DoFeed", <<VarDef("i", NonNull(Named("FeedInput")))>>,
+                                 <<LinkedA("feedPet", "", A1("input", Var("i")), InvSels(S))>>),
+                       Entrypoint("Mutation", "DoFeed") >>, {"invisible-linked"} \cup {"inv-" \o k : k \in S}) }
+          : S \in (SUBSET {"emptyfield", "ptr", "ptr2"}) \ {{}} }
+
 Programs == CASE Family = "value"  -> ValueProgramsF
               [] Family = "pair"   -> PairPrograms
               [] Family = "shape2" -> ShapePrograms(2)
               [] Family = "shape3" -> ShapePrograms(3)
               [] Family = "shape4" -> ShapePrograms(4)
               [] Family = "combo"  -> ComboPrograms
-              [] Family = "special" -> SpecialPrograms
-              [] Family = "quick"  -> ValueProgramsF \cup PairPrograms \cup ShapePrograms(2) \cup SpecialPrograms
-              [] Family = "thorough" -> ValueProgramsF \cup PairPrograms \cup ShapePrograms(4) \cup ComboPrograms \cup SpecialPrograms
+              [] Family = "special" -> SpecialPrograms \cup InvisiblePrograms
+              [] Family = "quick"  -> ValueProgramsF \cup PairPrograms \cup ShapePrograms(2) \cup SpecialPrograms \cup InvisiblePrograms
+              [] Family = "thorough" -> ValueProgramsF \cup PairPrograms \cup ShapePrograms(4) \cup ComboPrograms \cup SpecialPrograms \cup InvisiblePrograms
 
 VARIABLE prog
 Init == prog \in Programs
